@@ -333,7 +333,7 @@ class C19:
     def run_shard(self, sh, rec):
         self._setup()
         rng = random.Random(f"{sh['seed']}/C19/{sh['index']}")
-        for i in range(sh["n"]):
+        for i in harness.budgeted(range(sh["n"]), rec):
             if sh["kind"] == "hist":
                 sw = {"sc": rng.random() < 0.8, "ca": rng.random() < 0.5, "CS": rng.random() < 0.8, "CE": rng.random() < 0.5}
                 case = {"kind": "hist", "rseed": f"{sh['seed']}/C19/{sh['index']}/{i}", "steps": 8, "sw": sw}
